@@ -478,7 +478,11 @@ pub fn drive<E: Engine>(engine: &E, args: &Args) -> i32 {
     let foreign = crate::exec::FOREIGN_PANICS.lock().unwrap_or_else(|e| e.into_inner()).clone();
     let mut code = 0;
     let mut violation_lines = Vec::new();
-    if let Some(f) = &fail {
+    let infra = fail.as_ref().map(|f| f.message.contains("INFRA:")).unwrap_or(false);
+    if infra {
+        println!("INCONCLUSIVE property={prop} build={}: {}", crate::rt::BUILD, fail.as_ref().unwrap().message);
+        code = 2;
+    } else if let Some(f) = &fail {
         let p = write_replay(&args.verif, prop, args.seed, f);
         violation_lines.push(format!("VIOLATION property={prop} replay={}", p.display()));
         violation_lines.push(format!("  build={} origin={} : {}", crate::rt::BUILD, f.origin, f.message));
@@ -515,7 +519,7 @@ pub fn drive<E: Engine>(engine: &E, args: &Args) -> i32 {
         },
         "assumptions": engine.assumptions(),
         "wall_s": start.elapsed().as_secs_f64(),
-        "violations": if fail.is_some() { 1 } else { 0 },
+        "violations": if fail.is_some() && !infra { 1 } else { 0 },
         "known_findings_reobserved": st.known.iter().map(|(k, v)| json!({"id": k, "times": v.0, "example": first_line(&v.1)})).collect::<Vec<_>>(),
         "violation_message": fail.as_ref().map(|f| f.message.clone()),
     });
@@ -562,10 +566,13 @@ fn report_hang(prop: &str, args: &Args, hung: &Mutex<Option<(usize, String)>>) -
 
 pub mod basic;
 pub mod c01;
+pub mod c03;
+pub mod c04;
 pub mod c05;
 pub mod c06;
 pub mod c09;
 pub mod c10;
 pub mod progeng;
 pub mod props_damage;
+pub mod props_misc;
 pub mod props_write;
